@@ -57,6 +57,9 @@ def _call_args(fi, first, **named):
     return [first], kw
 
 
+VALUE_PARAMS = {"_value", "_item", "_new_item", "_new_value", "value", "item", "new_item"}
+
+
 # ------------------------------------------------------------------ TRUTH
 def truth_worker(task):
     hid, shape, fam = task
@@ -89,6 +92,11 @@ def truth_worker(task):
                 kind = "container (EMPTY)"
         if kind:
             found.append((kind, "/".join(map(str, tok)), site))
+    for tok, prov, site, via in it.none_tests:
+        if tok[0] in VALUE_PARAMS and len(tok) == 1:
+            fn, stmt = ctx.p.stmt_at(site)
+            if "Mutator" in fn:      # (mutate_value legitimately refuses to set attributes on None)
+                found.append(("element/value argument compared with None (None is a value like any other)", "/".join(map(str, tok)), site))
     return {"task": task, "found": sorted(set(found)), "paths": len(outs), "functions": sorted(it.functions_entered),
             "ntests": len(it.truth_tests)}
 
